@@ -125,8 +125,13 @@ void gm_call_hook(void) {
 #endif
 static File cg_file; static Token cg_tok;
 static inline void cg_node(Node *n, NodeKind k, Type *ty) { n->kind = k; n->ty = ty; n->tok = &cg_tok; }
+unsigned char nondet_cg_byte_(void); uint64_t nondet_cg_word_(void);
 static inline void cg_init(void) {
   cg_types();
+  // arbitrary memory contents in every mode (plain CBMC zero-initialises file-scope objects)
+  for (int i = 0; i < GM_DM; i++) gm_dm[i] = nondet_cg_byte_();
+  for (int i = 0; i < GM_RZ; i++) gm_rz[i] = nondet_cg_byte_();
+  for (int i = 0; i < GM_STK; i++) gm_stk[i] = nondet_cg_word_();
   cg_tok.file = &cg_file; cg_file.file_no = 1; cg_tok.line_no = 1;
   for (int i = 0; i < CG_NCHILD; i++) { cg_child_at[i] = -1; cg_child[i] = 0; cg_val[i] = 0; }
   cg_val[CG_NCHILD] = 0; cg_root = 0; cg_check_val = 1; cg_extra = 0;
